@@ -2,6 +2,7 @@ package main
 
 import (
 	"strconv"
+	"strings"
 	"verifharness/docs"
 	"verifharness/gen"
 	"verifharness/mon"
@@ -49,7 +50,7 @@ func coreSpaces() []gen.Space {
 
 func c01(r *mon.Run) {
 	r.Rule = "exhaustive: every core-fragment tree (identifiers unquoted/quoted incl. \"\" and non-ASCII, sub-expressions, indices 0 1 -1 2 -3, literals, raw string, @, parentheses, pipe, multi-select list/hash standalone and after a dot) with <= 2 operator nodes x a 40-document universe (every key holds each JSON type at depth 0-2), both API entry points; " +
-		"thorough: additionally every tree with 3 operator nodes on 2 documents each; plus seeded random deep core trees on random typed documents; plus every index from -(len+3) to len+3 on arrays of 0...9, 15...17, 63...65, 255...257 elements in five positions; plus paths of 1...400 steps (2000 in thorough) in six shapes (distinct keys, fields and indices alternating, self-similar a.a.a… and [1][1][1]…, cut by a pipe, inside a multi-select) on documents where skipping or repeating one step changes the answer. A fixed quarter of all cases is preceded by a failing or odd call (process-wide state must not leak). Oracle: ref.RefSet (independent evaluator, calibrated on the 768 applicable compliance cases). " +
+		"thorough: additionally every tree with 3 operator nodes on 2 documents each; plus seeded random deep core trees on random typed documents; plus 10 key names x 15 near-miss neighbours (first letter's case, all upper / lower, prefix, suffix, space, underscore, empty) present instead of or next to the key, in 7 expression forms; plus every index from -(len+3) to len+3 on arrays of 0...9, 15...17, 63...65, 255...257 elements in five positions; plus paths of 1...400 steps (2000 in thorough) in six shapes (distinct keys, fields and indices alternating, self-similar a.a.a… and [1][1][1]…, cut by a pipe, inside a multi-select) on documents where skipping or repeating one step changes the answer. A fixed quarter of all cases is preceded by a failing or odd call (process-wide state must not leak). Oracle: ref.RefSet (independent evaluator, calibrated on the 768 applicable compliance cases). " +
 		"Non-trivial = distinct (expression, document) whose expected result is non-null; 'null because of a miss' is counted separately."
 	r.Exhaustive = true
 	r.Floor = 5000
@@ -167,6 +168,59 @@ func c01(r *mon.Run) {
 			cx := &caseCtx{r, t, "index-versus-length", i}
 			res, _, _ := cx.runBoth(tree, expr, doc)
 			c01Account(t, tree, expr, doc, res, i)
+		}})
+	// near-miss keys: the document holds a key that differs from the one asked for in the case of its first
+	// letter, in case altogether, by a prefix / suffix / space / underscore, or that is its quoted-empty
+	// neighbour; a missing key is null whatever its neighbours are called
+	nmBases := []string{"name", "Name", "a", "A", "fooBar", "_x", "x_", "é", "É", "n1"}
+	nmVariants := func(k string) []string {
+		rs := []rune(k)
+		up := strings.ToUpper(string(rs[:1])) + string(rs[1:])
+		lo := strings.ToLower(string(rs[:1])) + string(rs[1:])
+		return []string{up, lo, strings.ToUpper(k), strings.ToLower(k), strings.Title(k), k + " ", " " + k, "_" + k, k + "_", string(rs[:len(rs)-1]), k + k, k + "2", "", k + ".", "\"" + k + "\""}
+	}
+	type nmc struct{ key, other string }
+	var nms []nmc
+	for _, b := range nmBases {
+		for _, v := range nmVariants(b) {
+			if v != b {
+				nms = append(nms, nmc{b, v})
+			}
+		}
+	}
+	const nmForms = 7
+	ws = append(ws, mon.Workload{Name: "near-miss-keys", N: len(nms) * nmForms * 2,
+		Do: func(i int, t *mon.Tally) {
+			c := nms[i/2/nmForms]
+			obj := map[string]interface{}{c.other: "other-value"}
+			if i%2 == 1 {
+				obj[c.key] = "own-value" // both present: each name selects its own
+			}
+			k, o := gen.Field(c.key), gen.Field(c.other)
+			rows := []interface{}{obj, map[string]interface{}{c.other: float64(1)}, map[string]interface{}{c.key: float64(2)}}
+			var doc interface{} = obj
+			var tree *gen.Expr
+			switch i / 2 % nmForms {
+			case 0:
+				tree = k
+			case 1:
+				tree, doc = gen.Chain(gen.Field("o"), gen.StField(c.key)), map[string]interface{}{"o": obj}
+			case 2:
+				tree = gen.MultiList(k, o)
+			case 3:
+				tree = gen.MultiHash([]gen.Key{{Name: "x"}, {Name: "y"}}, []*gen.Expr{k, o})
+			case 4:
+				tree, doc = gen.Chain(nil, gen.StListStar(), gen.StField(c.key)), rows
+			case 5:
+				tree, doc = gen.Chain(nil, gen.StListStar(), gen.StMultiList(k, o)), rows
+			default:
+				tree = gen.Pipe(gen.Current(), k)
+			}
+			expr := gen.SpellTight(tree)
+			cx := &caseCtx{r, t, "near-miss-keys", i}
+			res, _, _ := cx.runBoth(tree, expr, doc)
+			c01Account(t, tree, expr, doc, res, i)
+			t.Count("near-miss key cases")
 		}})
 	nrand := tierPick(r, 40000, 1000000)
 	ws = append(ws, mon.Workload{Name: "core-random", N: nrand,
